@@ -314,7 +314,7 @@ Definition uncled_delta_entropy (h : header) : Z := uncled_delta_entropy_of (cal
 
 Record pt_info := mkPT {
   pt_found : bool;           (* GetBlockByHash(primeTerminusHash) != nil *)
-  pt_genesis00 : bool;       (* IsGenesisHash(primeTerminusHash) && NodeLocation == {0,0} *)
+  pt_genesis : bool;         (* IsGenesisHash(primeTerminusHash): a genesis block of THIS slice (the node's database) *)
   pt_expansion : Z; pt_threshold : Z;      (* primeTerminus.ExpansionNumber() / ThresholdCount() *)
   ppt_found : bool; ppt_expansion : Z      (* fetchPrimeBlock(primeTerminus.ParentHash(PRIME)) *)
 }.
@@ -326,8 +326,13 @@ Record env := mkEnv {
   e_gcase : genesis_case;    (* only used when the parent is a genesis block *)
   e_pt_self : pt_info;       (* database view when the prime terminus is the parent itself (prime-order parent) *)
   e_pt_ref : pt_info;        (* database view of parent.PrimeTerminusHash() *)
-  e_er_pt : Z                (* ExchangeRate of GetBlockByHash(parent.PrimeTerminusHash()) *)
+  e_er_pt : Z;               (* ExchangeRate of GetBlockByHash(parent.PrimeTerminusHash()) *)
+  e_loc : Z * Z              (* hc.NodeLocation() of the zone node: (region, zone) *)
 }.
+
+(* hc.NodeLocation().Equal(common.Location{0, 0}): the original slice.  Every other slice starts from an expansion
+   genesis: a prime block of the old tree whose threshold count matured. *)
+Definition loc00 (e : env) : bool := (fst (e_loc e) =? 0) && (snd (e_loc e) =? 0).
 
 Definition u8 (x : Z) : Z := x mod 256.
 
@@ -337,17 +342,20 @@ Definition is_prime_of (co : co_result) : bool :=
   match order_of co with Some o => o =? ctx_prime | None => false end.
 Definition parent_is_prime (p : header) : bool := is_prime_of (calc_order p).
 
-(* ComputeExpansionNumber(parent) *)
-Definition expansion_of (i : pt_info) : option Z :=
+(* ComputeExpansionNumber(parent): [i] = the database view of the prime terminus of the child, [l00] = the node sits in
+   the original slice [0,0].  The "terminus is genesis" shortcut hands the expansion number down unchanged ONLY in
+   slice [0,0] (IsGenesisHash(primeTerminusHash) && NodeLocation().Equal(Location{0, 0})); in every other slice a
+   genesis terminus goes through the same two branches as an ordinary one. *)
+Definition expansion_of (l00 : bool) (i : pt_info) : option Z :=
   if negb (pt_found i) then None else
-  if pt_genesis00 i then Some (pt_expansion i) else
+  if pt_genesis i && l00 then Some (pt_expansion i) else
   if pt_threshold i =? tree_expansion_trigger_window + tree_expansion_wait_count
   then Some (u8 (pt_expansion i + 1)) else
   if negb (ppt_found i) then None else Some (ppt_expansion i).
 Definition expected_expansion_of (co : co_result) (e : env) : option Z :=
   match order_of co with
   | None => None
-  | Some o => expansion_of (if o =? ctx_prime then e_pt_self e else e_pt_ref e)
+  | Some o => expansion_of (loc00 e) (if o =? ctx_prime then e_pt_self e else e_pt_ref e)
   end.
 Definition expected_expansion (e : env) (p : header) : option Z := expected_expansion_of (calc_order p) e.
 
@@ -542,6 +550,93 @@ Definition hist_decode (pool : list header) (p : Z * Z) : hist_op :=
   if fst p =? 4 then HEvict (h_hash h) else HPurge.
 
 (* ------------------------------------------------------------------------------------------ *)
+(** * 8c. HeaderChain.VerifyHeader / AppendHeader and the block store                           *)
+
+(* What the node's database knows about a header hash.
+     StCandidate: the work object was stored by HeaderChain.WriteBlock (Core.WriteBlock does that for every block
+                  received from a peer BEFORE it is appended; a failed append leaves the same state behind):
+                  GetHeaderOrCandidateByHash answers, GetHeaderByHash does not (no termini);
+     StAppended : Slice.Append went through and wrote the termini: GetHeaderByHash answers. *)
+Inductive store_status := StUnknown | StCandidate | StAppended.
+
+(* HeaderChain.VerifyHeader(c) (PowMode normal):
+     if hc.GetHeaderByHash(c.Hash()) != nil { return nil }           -- only a header that IS part of the chain
+     parent := hc.GetBlockByHash(c.ParentHash()); nil -> ErrUnknownAncestor
+     return hc.verifyHeader(c, parent, false, time.Now().Unix())
+   [par] = the stored parent together with the database view around it (None: unknown ancestor). *)
+Definition verify_header_top (st : store_status) (par : option (env * header)) (c : header) : bool :=
+  match st with
+  | StAppended => true
+  | _ => match par with
+         | None => false
+         | Some (e, p) => valid_child_fast e p c
+         end
+  end.
+
+Inductive store_op :=
+| SoVerify          (* hc.VerifyHeader(c) *)
+| SoAppendHeader    (* hc.AppendHeader(c): VerifyHeader, then the manifest commitment (kept satisfied by the harness) *)
+| SoWrite           (* hc.WriteBlock(c): stored as a candidate *)
+| SoPurge           (* every memo purged *)
+| SoRestart         (* a new HeaderChain over the same database *)
+| SoCommit.         (* Slice.Append finished: termini written, the header is part of the chain *)
+
+Definition store_step (par : option (env * header)) (c : header) (st : store_status) (op : store_op)
+  : store_status * option bool :=
+  match op with
+  | SoVerify | SoAppendHeader => (st, Some (verify_header_top st par c))
+  | SoWrite => (match st with StAppended => StAppended | _ => StCandidate end, None)
+  | SoPurge | SoRestart => (st, None)
+  | SoCommit => (StAppended, None)
+  end.
+
+Fixpoint store_run (par : option (env * header)) (c : header) (st : store_status) (ops : list store_op)
+  : list (option bool) :=
+  match ops with
+  | [] => []
+  | op :: rest => let r := store_step par c st op in snd r :: store_run par c (fst r) rest
+  end.
+
+(* the same run with the verdict of verifyHeader computed once (vm_compute is call-by-value): used by the
+   correspondence check; equal to [store_run] (Proofs: store_run_fast_eq) *)
+Definition verdict_top (v : bool) (st : store_status) : bool := match st with StAppended => true | _ => v end.
+Fixpoint store_run_v (v : bool) (st : store_status) (ops : list store_op) : list (option bool) :=
+  match ops with
+  | [] => []
+  | op :: rest =>
+      match op with
+      | SoVerify | SoAppendHeader => Some (verdict_top v st) :: store_run_v v st rest
+      | SoWrite => None :: store_run_v v (match st with StAppended => StAppended | _ => StCandidate end) rest
+      | SoPurge | SoRestart => None :: store_run_v v st rest
+      | SoCommit => None :: store_run_v v StAppended rest
+      end
+  end.
+Definition store_run_fast (e : env) (p c : header) (ops : list store_op) : list (option bool) :=
+  let v := valid_child_fast e p c in store_run_v v StUnknown ops.
+
+Definition store_decode (k : Z) : store_op :=
+  if k =? 0 then SoVerify else if k =? 1 then SoAppendHeader else if k =? 2 then SoWrite else
+  if k =? 3 then SoPurge else if k =? 4 then SoRestart else SoCommit.
+
+(* the node: blocks arrive from peers in any order; each is stored as a candidate and/or appended.  [NAppend c]
+   = AppendHeader(c) and, when it returns nil, the commit of Slice.Append. *)
+Inductive node_op := NWrite (c : header) | NAppend (c : header) | NPurge.
+Record node_store := mkNS { ns_candidates : list Z; ns_appended : list Z }.
+Definition status_of (s : node_store) (c : header) : store_status :=
+  if existsb (Z.eqb (h_hash c)) (ns_appended s) then StAppended
+  else if existsb (Z.eqb (h_hash c)) (ns_candidates s) then StCandidate else StUnknown.
+Definition node_step (look : header -> option (env * header)) (s : node_store) (op : node_op) : node_store :=
+  match op with
+  | NWrite c => mkNS (h_hash c :: ns_candidates s) (ns_appended s)
+  | NAppend c =>
+      if verify_header_top (status_of s c) (look c) c
+      then mkNS (ns_candidates s) (h_hash c :: ns_appended s) else s
+  | NPurge => s
+  end.
+Definition node_run (look : header -> option (env * header)) (s : node_store) (ops : list node_op) : node_store :=
+  fold_left (node_step look) ops s.
+
+(* ------------------------------------------------------------------------------------------ *)
 (** * 9. correspondence cases                                                                  *)
 
 Definition co_eqb (a b : co_result) : bool :=
@@ -577,6 +672,13 @@ Fixpoint ohres_eqb (a b : list (option hist_res)) : bool :=
   | None :: a', None :: b' => ohres_eqb a' b'
   | _, _ => false
   end.
+Fixpoint obools_eqb (a b : list (option bool)) : bool :=
+  match a, b with
+  | [], [] => true
+  | Some x :: a', Some y :: b' => Bool.eqb x y && obools_eqb a' b'
+  | None :: a', None :: b' => obools_eqb a' b'
+  | _, _ => false
+  end.
 Fixpoint ocos_eqb (a b : list (option co_result)) : bool :=
   match a, b with
   | [], [] => true
@@ -602,8 +704,11 @@ Inductive case_body :=
 | CExpansion (e : env) (p : header) (obs : option Z)  (* hc.ComputeExpansionNumber *)
 | CVerify (e : env) (p c : header) (obs : bool)       (* hc.verifyHeader verdict (true = accepted) *)
 | CCache (ops : list cache_op) (obs : list (option co_result))    (* history of CalcOrder calls / evictions *)
-| CHist (ctx : Z) (pool : list header) (ops : list (Z * Z)) (obs : list (option hist_res)).
+| CHist (ctx : Z) (pool : list header) (ops : list (Z * Z)) (obs : list (option hist_res))
                                                       (* history of CalcOrder / Total / Delta / UncledDelta calls *)
+| CStore (e : env) (p c : header) (ops : list Z) (obs : list (option bool)).
+                                                      (* VerifyHeader / AppendHeader verdicts on c (stored parent p) in a
+                                                         history of WriteBlock / purge / restart / commit *)
 
 Definition case := (N * case_body)%type.
 
@@ -629,6 +734,7 @@ Definition body_ok (b : case_body) : bool :=
   | CVerify e p c obs => Bool.eqb (valid_child_fast e p c) obs
   | CCache ops obs => ocos_eqb (cache_run [] ops) obs
   | CHist ctx pool ops obs => ohres_eqb (hist_run ctx [] (map (hist_decode pool) ops)) obs
+  | CStore e p c ops obs => obools_eqb (store_run_fast e p c (map store_decode ops)) obs
   end.
 
 Definition case_ok (c : case) : bool := body_ok (snd c).
